@@ -4,7 +4,9 @@ package os
 
 // Contracts for package os (risor's OS abstraction), checked by /verif/govc. Property C13.
 
-//@ spec within(b, p) = p == b || prefixof(b + "/", p)
+// within: p is b or lies below it - the string prefix alone would admit "b/../x", so p is also required to be clean
+// (no "..", "." or empty segments); filepath.Join and filepath.Clean return clean paths.
+//@ spec within(b, p) = p == b || (prefixof(b + "/", p) && isclean(p))
 //@ spec confined(b, p) = b == "" || b == "/" || within(b, p)
 //@ spec noDD(p) = uf("noDD", bool, p)
 //@ spec isclean(p) = uf("isclean", bool, p)
